@@ -1,10 +1,10 @@
-// unit: EVM memory regions and growth, usize = 64 bit (host / reference semantics) (C18, C17)
+// unit: EVM memory regions and growth, usize = 32 bit (wasm32, the deployment target) (C18, C17)
 //@ include prelude/core.rs
 //@ include prelude/u256.rs
 //@ include prelude/slices.rs
 macro_rules! debug_assert_eq { ($($t:tt)*) => { () } }
 verus! {
-global size_of usize == 8;
+global size_of usize == 4;
 pub mod evm {
 use super::*;
 broadcast use super::u256_axioms::u256_range;
